@@ -1067,7 +1067,9 @@ def check_heuristic_exchange(world, rec):
     # outcome clauses (fault-free runs only)
     aL = rec.caps[-1].answer
     if rec.exc is None and rec.result is not None and not rec.injected and a1.obj is not None:
-        real = a1.mode == "real"
+        # accuracy-dependent clauses need accurate answers: a REAL solver that reports "optimal_inaccurate" for one
+        # of the problems promises nothing beyond that status (same rule as O-PRIMAL)
+        real = a1.mode == "real" and all(c.answer.status == "optimal" for c in rec.caps)
         scale = 1.0 + abs(a1.obj)
         mode = cfg.get("mode", "dual")
         if mode == "primal" and real:
